@@ -40,19 +40,19 @@ def ofDeformResult : Color.DeformResult → Option PauliMap
 def toric2D (Lx Ly : Nat) : ClassGeom :=
   { cls := "Toric2DCode", lat := Toric2DCode.lattice Lx Ly,
     stabType := Toric2DCode.stabilizerType Lx Ly, qubitAxis := Toric2DCode.qubitAxis,
-    deformation := fun name loc => Toric2DCode.getDeformation name "y" loc,
+    deformation := fun name loc => Toric2DCode.getDeformation name none loc,
     stabEdits := noEdits, qubitEdits := noEdits }
 
 def planar2D (Lx Ly : Nat) : ClassGeom :=
   { cls := "Planar2DCode", lat := Planar2DCode.lattice Lx Ly,
     stabType := Planar2DCode.stabilizerType Lx Ly, qubitAxis := Planar2DCode.qubitAxis,
-    deformation := fun name loc => Planar2DCode.getDeformation name "y" loc,
+    deformation := fun name loc => Planar2DCode.getDeformation name none loc,
     stabEdits := noEdits, qubitEdits := noEdits }
 
 def rotatedPlanar2D (Lx Ly : Nat) : ClassGeom :=
   { cls := "RotatedPlanar2DCode", lat := RotatedPlanar2DCode.lattice Lx Ly,
     stabType := RotatedPlanar2DCode.stabilizerType Lx Ly, qubitAxis := RotatedPlanar2DCode.qubitAxis,
-    deformation := fun name loc => RotatedPlanar2DCode.getDeformation name "y" loc,
+    deformation := fun name loc => RotatedPlanar2DCode.getDeformation name none loc,
     stabEdits := noEdits, qubitEdits := noEdits }
 
 /-! ### cubic-lattice 3-D surface codes (`Toric3DCode`, `Planar3DCode`, `HollowPlanar3DCode`)
@@ -287,7 +287,7 @@ def xcubeStabEdits (_rotated : Bool) (loc : Coord) (t : String) : List Edit :=
 def xcube (Lx Ly Lz : Nat) : ClassGeom :=
   { cls := "XCubeCode", lat := XCubeCode.lattice Lx Ly Lz,
     stabType := XCubeCode.stabilizerType Lx Ly Lz, qubitAxis := XCubeCode.qubitAxis,
-    deformation := fun name loc => XCubeCode.getDeformation name "z" loc,
+    deformation := fun name loc => XCubeCode.getDeformation name none loc,
     stabEdits := xcubeStabEdits, qubitEdits := noEdits }
 
 /-! ### `Color3DCode`: normals of the square and hexagonal faces (`np.sqrt(2)/2` symbolic) -/
